@@ -540,7 +540,7 @@ def c11_builder(repo, report, tier):
                     continue
                 # the predicate's own argument
                 for pm in re.finditer(re.escape(p) + r"\(([^()]*(?:\([^()]*\)[^()]*)*)\)", s.key):
-                    argd = dests_in(pm.group(1))
+                    argd = dests_in(pm.group(1)) - PARAM_DESTS  # general parameters (--quality-base ...) may accompany the threshold
                     if argd and not argd <= want:
                         problems.append(f"{p} is built from option(s) {sorted(argd)}, expected {sorted(want)}")
                     if not argd and not ((term_d | guard_d) & want):
